@@ -68,11 +68,15 @@ func verifLRUCheck(c *cachedRoutes, m *verifLRUModel, capacity int, when string)
 }
 
 func verifHarness_C14_lruStep() {
-	capacity := verifChoice("cap", 4)
+	capacity := verifChoice("cap", verifParam("C")+1)
 	n := verifChoice("n", capacity+1)
 	c := NewCachedRoutes(capacity)
 	m := &verifLRUModel{}
-	pool := []*Route{{name: "r0"}, {name: "r1"}, {name: "r2"}, {name: "r3"}, {name: "r4"}}
+	pool := make([]*Route, capacity+2)
+	for i := range pool {
+		pool[i] = &Route{name: "r" + string(rune('0'+i))}
+	}
+	fresh := pool[len(pool)-1] // the value a Set of this step stores
 	keys := make([]string, n)
 	for i := 0; i < n; i++ {
 		keys[i] = verifString("key", 1)
@@ -89,12 +93,12 @@ func verifHarness_C14_lruStep() {
 	k := verifString("k", 1)
 	switch verifChoice("op", 5) {
 	case 0: // Set
-		c.Set(k, pool[4])
-		m.set(k, pool[4], capacity)
+		c.Set(k, fresh)
+		m.set(k, fresh, capacity)
 		if capacity > 0 {
 			v, ok := c.Get(k)
 			verifAssert(ok, "a key just stored is present")
-			verifAssert(v == pool[4], "a key just stored maps to the stored value")
+			verifAssert(v == fresh, "a key just stored maps to the stored value")
 			m.toFront(m.find(k))
 		}
 		verifCover("C14 set")
